@@ -7,6 +7,7 @@ from sigstat.inline import enumerate_defs, module_globals, INVENTORY
 repo = sys.argv[1] if len(sys.argv) > 1 else "/repo"
 funcs = []
 globs = []
+templates = {}
 pkg = os.path.join(repo, "signac")
 for dp, dn, fns in os.walk(pkg):
     dn[:] = sorted(d for d in dn if d not in ("_vendor", "__pycache__"))
@@ -20,5 +21,39 @@ for dp, dn, fns in os.walk(pkg):
             tree = ast.parse(open(full).read())
             funcs += [d.qual for d in enumerate_defs(mod, tree)]
             globs += module_globals(mod, tree)
-json.dump({"comment": "function inventory of the reference tree; see sigstat/inline.py", "functions": sorted(set(funcs)), "globals": sorted(set(globs))}, open(INVENTORY, "w"), indent=0)
+            for d in enumerate_defs(mod, tree):
+                body = [x for x in d.node.body if not (isinstance(x, ast.Expr) and isinstance(x.value, ast.Constant) and isinstance(x.value.value, str))]
+                a = d.node.args
+                if len(body) == 1 and d.kind in ("module", "method") and not d.node.decorator_list and isinstance(body[0], (ast.Return, ast.Assign, ast.Expr)) \
+                        and d.node.name.startswith("_") and not d.node.name.startswith("__") and not (a.vararg or a.kwarg or a.kwonlyargs or a.defaults or a.posonlyargs) \
+                        and not (isinstance(body[0], ast.Return) and body[0].value is None):
+                    templates[d.qual] = {"class": d.cls.name if d.cls is not None else None, "src": ast.unparse(d.node)}
+# functions of the reference tree that spell the body of a template out themselves (they must stay as they are when the helper is re-created)
+from sigstat.inline import ModuleInliner
+trees = {}
+for dp, dn, fns in os.walk(pkg):
+    dn[:] = sorted(d for d in dn if d not in ("_vendor", "__pycache__"))
+    for fn in sorted(fns):
+        if fn.endswith(".py"):
+            full = os.path.join(dp, fn)
+            mod = os.path.relpath(full, repo)[:-3].replace(os.sep, ".")
+            if mod.endswith(".__init__"):
+                mod = mod[:-9]
+            trees[mod] = ast.parse(open(full).read())
+for q, t in templates.items():
+    fdef = ast.parse(t["src"]).body[0]
+    body = [x for x in fdef.body if not (isinstance(x, ast.Expr) and isinstance(x.value, ast.Constant) and isinstance(x.value.value, str))]
+    st = body[0]
+    params = {a.arg for a in fdef.args.args}
+    pat = st.value if isinstance(st, ast.Return) else st
+    inst = []
+    for mod, tree in trees.items():
+        for d in enumerate_defs(mod, tree):
+            if d.qual == q:
+                continue
+            for n in ast.walk(d.node):
+                if type(n) is type(pat) and ModuleInliner._tmatch(pat, n, params, {}):
+                    inst.append(d.qual)
+    t["base_instances"] = sorted(set(inst))
+json.dump({"comment": "function inventory of the reference tree; see sigstat/inline.py", "functions": sorted(set(funcs)), "globals": sorted(set(globs)), "templates": templates}, open(INVENTORY, "w"), indent=0)
 print(len(set(funcs)), "functions")
